@@ -2,7 +2,7 @@
 """record_seeded.py <Cid> <k> <slug> <caught_by_csv> <needs...>: copy a CONFIRMED seeded regression into /verif/seeded/<Cid>-<slug>/"""
 import sys, json, shutil, os
 C, k, slug, caught = sys.argv[1:5]; needs = " ".join(sys.argv[5:])
-src = '/tmp/m/%s/out/%s' % (C, k)
+src = '%s/%s/out/%s' % (os.environ.get('MBASE', '/tmp/m'), C, k)
 conf = json.load(open(src + '/confirm.json'))
 assert conf['confirmed'], conf
 dst = '/verif/seeded/%s-%s' % (C, slug)
@@ -17,7 +17,7 @@ meta = {
     'needs_to_manifest': needs,
     'origin': 'written by a fresh sub-agent that was given only the property text and a scratch worktree of the repository',
     'confirmed_in_scratch_worktree': {
-        'worktree': '/tmp/m/%s/repo (removed afterwards)' % C,
+        'worktree': '%s/%s/repo (removed afterwards)' % (os.environ.get('MBASE', '/tmp/m'), C),
         'ran': ['git apply patch.diff', 'cargo nextest run --workspace --no-fail-fast --offline  (all existing tests pass with the change)',
                 'cargo test -p ciphercore-base --offline --test demo_%s  (fails with the change)' % k,
                 'git checkout -- . ; same demo  (passes without the change)'],
